@@ -26,6 +26,26 @@ let () =
     let rd = Hashtbl.find plain_readers s and simple = Hashtbl.find plain_simple s in
     let res = rd doc in
     if simple doc then pres pplain res else (Buffer.add_string b "NS "; pres (fun _ -> ()) res));
+  register "convplainops" (fun r ->
+    let s = rint r in let d = rint r in let doc = rstr r in
+    let rd = Hashtbl.find plain_readers s and wr = Hashtbl.find plain_writers d and simple = Hashtbl.find plain_simple s in
+    let ns = ref (not (simple doc)) in
+    let rop r =
+      match rint r with
+      | 0 -> let d = rz r in PAdd d
+      | 1 -> let f = rz r in PFragment f
+      | 2 -> PUnfragment
+      | 3 -> POrder
+      | 4 -> POptimize
+      | 5 -> let a1 = rz r in let d1 = rz r in let a2 = rz r in let d2 = rz r in PLin (a1, d1, a2, d2)
+      | 6 ->
+        let m = rstr r in
+        if not ((Hashtbl.find plain_simple 0) m) then ns := true;
+        (match (Hashtbl.find plain_readers 0) m with Ok p -> PMerge p | _ -> failwith "convplainops: merge source unreadable")
+      | _ -> failwith "convplainops: unknown operation" in
+    let ops = rlist rop r in
+    let res = convert_plain_ops rd wr ops doc in
+    if !ns then (Buffer.add_string b "NS "; pres (fun _ -> ()) res) else pres pstr res);
   register "plainwrite" (fun r ->
     let d = rint r in let p = rplain r in
     pres pstr ((Hashtbl.find plain_writers d) p))
